@@ -4,8 +4,6 @@ From CAres.Gen Require Import Consts.
 Local Open Scope Z_scope.
 Notation filter_map := Legacy_spec.filter_map.
 
-Lemma in_firstn {A} (x : A) n : forall l, In x (firstn n l) -> In x l.
-Proof. induction n as [|n IH]; intros [|y l] H; cbn in H; try contradiction. destruct H as [->|H]; [left; reflexivity | right; apply IH; exact H]. Qed.
 Lemma in_skipn {A} (x : A) n : forall l, In x (skipn n l) -> In x l.
 Proof. induction n as [|n IH]; intros l H; [exact H|]. destruct l as [|y l]; [contradiction|]. right. apply IH. exact H. Qed.
 
@@ -303,8 +301,9 @@ Theorem getaddrinfo_exact hf lookups name family port flags p4 p6 rounds ai :
   Forall (round_wf family) rounds ->
   getaddrinfo hf lookups name family (Some port) flags p4 p6 ARES_SUCCESS rounds = Ok (ARES_SUCCESS, Some ai) ->
   match fake_addrinfo name family port flags p4 p6 with
-  | Some lit => ai = lit
-  | None => ai_nodes ai = spec_lookup_nodes hf name family port lookups rounds /\ ai_nodes ai <> []
+  | FAddr lit => ai = lit
+  | FFail _ => False
+  | FNone => ai_nodes ai = spec_lookup_nodes hf name family port lookups rounds /\ ai_nodes ai <> []
   end.
 Proof.
   intros Hwf. unfold getaddrinfo.
@@ -312,7 +311,7 @@ Proof.
   assert (Hf : family_ok family).
   { unfold family_ok. apply negb_false_iff in Ev. apply orb_prop in Ev. destruct Ev as [Ev|Ev];
       [apply orb_prop in Ev; destruct Ev as [Ev|Ev]|]; apply Z.eqb_eq in Ev; auto. }
-  destruct (fake_addrinfo name family port flags p4 p6) as [lit|]; [intros [= <-]; reflexivity|].
+  destruct (fake_addrinfo name family port flags p4 p6) as [|lit|fst]; [|intros [= <-]; reflexivity|discriminate].
   change (negb (ARES_SUCCESS =? ARES_SUCCESS)) with false. cbv iota.
   destruct (next_lookup hf name family port flags lookups rounds ai_empty 0 ARES_ECONNREFUSED) as [[st ai1]| |] eqn:En;
     cbn [bind]; try discriminate.
@@ -329,16 +328,17 @@ Proof.
   unfold getaddrinfo.
   destruct (negb _); [intros [= <- <-]; reflexivity|].
   destruct port as [port|]; [|intros [= <- <-]; reflexivity].
-  destruct (fake_addrinfo name family port flags p4 p6); [intros [= <- <-]; congruence|].
+  destruct (fake_addrinfo name family port flags p4 p6); [|intros [= <- <-]; congruence|intros [= <- <-]; reflexivity].
   destruct (negb (ns =? ARES_SUCCESS)); [intros [= <- <-]; reflexivity|].
   destruct (next_lookup _ _ _ _ _ _ _ _ _ _) as [[st1 ai1]| |]; cbn [bind]; try discriminate.
   destruct (Z.eqb_spec st1 ARES_SUCCESS); intros [= <- <-]; [congruence | reflexivity].
 Qed.
 
-(* a literal: exactly the address it denotes, with the caller's port and TTL 0 ... *)
+(* a literal: exactly the address it denotes, of a family that was asked for, with the
+   caller's port and TTL 0 *)
 Theorem literal_node name family port flags p4 p6 ai :
-  fake_addrinfo name family port flags p4 p6 = Some ai ->
-  exists a, (ai_nodes ai = [mkNode LEG_AF_INET a port 0] /\ p4 = Some a) \/
+  fake_addrinfo name family port flags p4 p6 = FAddr ai ->
+  exists a, (ai_nodes ai = [mkNode LEG_AF_INET a port 0] /\ p4 = Some a /\ family <> LEG_AF_INET6) \/
             (ai_nodes ai = [mkNode LEG_AF_INET6 a port 0] /\ p6 = Some a /\ family <> LEG_AF_INET).
 Proof.
   unfold fake_addrinfo.
@@ -347,17 +347,18 @@ Proof.
   { unfold r4. intros a. destruct ((family =? LEG_AF_INET) || _ || _); [|discriminate].
     destruct (forallb is_digit_dot name && _); [auto | discriminate]. }
   destruct r4 as [a|].
-  - intros [= <-]. exists a. left. split; [reflexivity | apply H4; reflexivity].
+  - destruct (Z.eqb_spec family LEG_AF_INET6) as [|Hne]; [discriminate|].
+    intros [= <-]. exists a. left. split; [reflexivity|]. split; [apply H4; reflexivity | exact Hne].
   - destruct ((family =? LEG_AF_INET6) || (family =? LEG_AF_UNSPEC)) eqn:E6; [|discriminate].
     destruct p6 as [a|]; [|discriminate]. intros [= <-]. exists a. right. split; [reflexivity|]. split; [reflexivity|].
     intros ->. discriminate E6.
 Qed.
 
-(* ... but a dotted-quad literal is accepted for AF_INET6 too (finding wrong-family-literal) *)
-Theorem literal_family_refuted :
-  exists name p4 ai, fake_addrinfo name LEG_AF_INET6 0 0 (Some p4) None = Some ai /\
-                     ai_nodes ai = [mkNode LEG_AF_INET p4 0 0].
-Proof. exists [49; 46; 50; 46; 51; 46; 52], [1; 2; 3; 4]. eexists. split; reflexivity. Qed.
+(* a dotted-quad literal never satisfies an AF_INET6 request *)
+Theorem literal_other_family name port flags p4 p6 a :
+  forallb is_digit_dot name && Nat.eqb (count_dots name) 3 = true -> p4 = Some a ->
+  fake_addrinfo name LEG_AF_INET6 port flags p4 p6 = FFail ARES_ENOTFOUND.
+Proof. intros Hd ->. unfold fake_addrinfo. cbn. rewrite Hd. reflexivity. Qed.
 
 (* no address is invented: every node of a successful DNS round is an address record of one
    of the accepted answers of that round (content in C13_nodes_are_the_records) *)
@@ -528,3 +529,282 @@ Proof. vm_compute. reflexivity. Qed.
 
 Example ex_rounds_wf : Forall (round_wf LEG_AF_UNSPEC) ex_rounds.
 Proof. repeat constructor; discriminate. Qed.
+
+(* ------------------------------------------------------------------------------------ *)
+(* hosts file: completeness of the merge                                                 *)
+(* ------------------------------------------------------------------------------------ *)
+Lemma lower_eqb_refl c : (lower c =? lower c) = true. Proof. apply Z.eqb_refl. Qed.
+Lemma strcaseeq_refl s : strcaseeq s s = true.
+Proof. induction s as [|c s IH]; [reflexivity|]. cbn. rewrite Z.eqb_refl, IH. reflexivity. Qed.
+
+Lemma bin_eqb_eq a : forall b, bin_eqb a b = true <-> a = b.
+Proof.
+  induction a as [|x a IH]; intros [|y b]; cbn; split; try discriminate; try reflexivity.
+  - intros H. apply andb_prop in H. destruct H as [H1 H2]. apply Z.eqb_eq in H1. apply IH in H2. congruence.
+  - intros [= -> ->]. rewrite Z.eqb_refl. apply IH. reflexivity.
+Qed.
+Lemma ipkey_eqb_eq a b : ipkey_eqb a b = true <-> a = b.
+Proof.
+  destruct a as [f1 a1], b as [f2 a2]. unfold ipkey_eqb. cbn [fst snd]. split.
+  - intros H. apply andb_prop in H. destruct H as [H1 H2]. apply Z.eqb_eq in H1. apply bin_eqb_eq in H2. congruence.
+  - intros [= -> ->]. rewrite Z.eqb_refl. apply bin_eqb_eq. reflexivity.
+Qed.
+
+Lemma host_get_app h t k v : host_get h k = Some v -> host_get (h ++ t) k = Some v.
+Proof. induction h as [|[k' v'] h IH]; cbn; [discriminate|]. destruct (strcaseeq k' k); auto. Qed.
+Lemma host_get_app_none h t k : host_get h k = None -> host_get (h ++ t) k = host_get t k.
+Proof. induction h as [|[k' v'] h IH]; cbn; [reflexivity|]. destruct (strcaseeq k' k); [discriminate | auto]. Qed.
+Lemma ip_get_app h t k v : ip_get h k = Some v -> ip_get (h ++ t) k = Some v.
+Proof. induction h as [|[k' v'] h IH]; cbn; [discriminate|]. destruct (ipkey_eqb k' k); auto. Qed.
+Lemma ip_get_app_none h t k : ip_get h k = None -> ip_get (h ++ t) k = ip_get t k.
+Proof. induction h as [|[k' v'] h IH]; cbn; [reflexivity|]. destruct (ipkey_eqb k' k); [discriminate | auto]. Qed.
+
+Lemma hosthash_add_stable names i : forall h k v, host_get h k = Some v -> host_get (hosthash_add h names i) k = Some v.
+Proof.
+  induction names as [|x t IH]; intros h k v H; cbn [hosthash_add]; [exact H|].
+  apply IH. destruct (host_get h x); [exact H | apply host_get_app; exact H].
+Qed.
+
+(* a key found after the additions was there before, or maps to the entry the line joined *)
+Lemma hosthash_add_cases names i : forall h k v, host_get (hosthash_add h names i) k = Some v ->
+  host_get h k = Some v \/ (v = i /\ exists y, In y names /\ strcaseeq y k = true).
+Proof.
+  induction names as [|x t IH]; intros h k v H; cbn [hosthash_add] in H; [left; exact H|].
+  apply IH in H. destruct H as [H | (-> & y & Hy & Hc)]; [|right; split; [reflexivity|]; exists y; split; [right; exact Hy | exact Hc]].
+  destruct (host_get h x) eqn:Ex; [left; exact H|].
+  destruct (host_get h k) as [w|] eqn:Ek.
+  - left. rewrite (host_get_app h [(x, i)] k w Ek) in H. exact H.
+  - rewrite (host_get_app_none h _ k Ek) in H. cbn in H. destruct (strcaseeq x k) eqn:Ec; [|discriminate].
+    injection H as <-. right. split; [reflexivity|]. exists x. split; [left; reflexivity | exact Ec].
+Qed.
+
+Lemma hosthash_add_in names i : forall h x, In x names -> exists j, host_get (hosthash_add h names i) x = Some j.
+Proof.
+  induction names as [|y t IH]; intros h x Hin; [destruct Hin|]. cbn [hosthash_add].
+  destruct Hin as [-> | Hin]; [|apply IH; exact Hin].
+  destruct (host_get h x) as [j|] eqn:E.
+  - exists j. apply hosthash_add_stable. exact E.
+  - exists i. apply hosthash_add_stable. rewrite (host_get_app_none h _ x E). cbn. rewrite strcaseeq_refl. reflexivity.
+Qed.
+
+Lemma update_entry_length es i f : length (update_entry es i f) = length es.
+Proof.
+  unfold update_entry. destruct (nth_error es i) as [e|] eqn:E; [|reflexivity].
+  assert (Hi : (i < length es)%nat) by (apply nth_error_Some; congruence).
+  rewrite app_length, firstn_length. cbn [length]. rewrite skipn_length. lia.
+Qed.
+Lemma update_entry_same es i f e : nth_error es i = Some e -> nth_error (update_entry es i f) i = Some (f e).
+Proof.
+  intros E. unfold update_entry. rewrite E.
+  assert (Hi : (i < length es)%nat) by (apply nth_error_Some; congruence).
+  rewrite nth_error_app2 by (rewrite firstn_length; lia). rewrite firstn_length.
+  replace (i - Nat.min i (length es))%nat with 0%nat by lia. reflexivity.
+Qed.
+Lemma update_entry_other es i f j : j <> i -> nth_error (update_entry es i f) j = nth_error es j.
+Proof.
+  intros Hne. unfold update_entry. destruct (nth_error es i) as [e|] eqn:E; [|reflexivity].
+  assert (Hi : (i < length es)%nat) by (apply nth_error_Some; congruence).
+  destruct (Nat.lt_ge_cases j i) as [Hl|Hg].
+  - rewrite nth_error_app1 by (rewrite firstn_length; lia). apply nth_error_firstn_lt'. exact Hl.
+  - rewrite nth_error_app2 by (rewrite firstn_length; lia). rewrite firstn_length.
+    replace (Nat.min i (length es)) with i by lia.
+    destruct (j - i)%nat as [|d] eqn:Ed; [lia|]. cbn [nth_error]. rewrite nth_error_skipn'. f_equal. lia.
+Qed.
+
+(* invariant of the parsed file: hash values are entry indices, every hashed address is in its
+   entry, every hashed name is a name of a line read so far *)
+Definition hf_inv (lines : list hline) (hf : hfile) : Prop :=
+  (forall k i, host_get (hf_hosthash hf) k = Some i -> (i < length (hf_entries hf))%nat) /\
+  (forall ip i, ip_get (hf_iphash hf) ip = Some i -> exists e, nth_error (hf_entries hf) i = Some e /\ In ip (he_ips e)) /\
+  (forall k i, host_get (hf_hosthash hf) k = Some i -> exists l y, In l lines /\ In y (hl_hosts l) /\ strcaseeq y k = true).
+
+
+Lemma first_host_match_some h hosts i : first_host_match h hosts = Some i -> exists y, In y hosts /\ host_get h y = Some i.
+Proof.
+  induction hosts as [|x t IH]; cbn; [discriminate|]. destruct (host_get h x) as [j|] eqn:E.
+  - intros [= <-]. exists x. split; [left; reflexivity | exact E].
+  - intros H. destruct (IH H) as (y & Hy & Ey). exists y. split; [right; exact Hy | exact Ey].
+Qed.
+
+Lemma ip_get_found h k i : ip_get h k = Some i -> In (k, i) h.
+Proof.
+  induction h as [|[k' v] h IH]; cbn; [discriminate|]. destruct (ipkey_eqb k' k) eqn:E.
+  - intros [= <-]. apply ipkey_eqb_eq in E. subst. left; reflexivity.
+  - intros H. right. exact (IH H).
+Qed.
+
+Lemma fresh_in (h : list (str * nat)) hosts x : In x hosts -> host_get h x = None ->
+  In x (filter (fun y => match host_get h y with Some _ => false | None => true end) hosts).
+Proof. intros Hin E. apply filter_In. split; [exact Hin | rewrite E; reflexivity]. Qed.
+
+Lemma fresh_incl (h : list (str * nat)) hosts y :
+  In y (filter (fun y => match host_get h y with Some _ => false | None => true end) hosts) -> In y hosts.
+Proof. intros H. apply filter_In in H. apply H. Qed.
+
+Lemma added_maps_to h names i x : In x names -> host_get h x = None -> host_get (hosthash_add h names i) x = Some i.
+Proof.
+  intros Hin E. destruct (hosthash_add_in names i h x Hin) as [j Hj].
+  destruct (hosthash_add_cases names i h x j Hj) as [H | [-> _]]; [congruence | exact Hj].
+Qed.
+
+Lemma hosts_add_step lines hf l : hf_inv lines hf ->
+  hf_inv (lines ++ [l]) (hosts_add hf l) /\
+  (forall k i, host_get (hf_hosthash hf) k = Some i -> host_get (hf_hosthash (hosts_add hf l)) k = Some i) /\
+  (forall ip i, ip_get (hf_iphash hf) ip = Some i -> ip_get (hf_iphash (hosts_add hf l)) ip = Some i) /\
+  (forall i e, nth_error (hf_entries hf) i = Some e ->
+     exists e', nth_error (hf_entries (hosts_add hf l)) i = Some e' /\ incl (he_ips e) (he_ips e')) /\
+  (exists i e', ip_get (hf_iphash (hosts_add hf l)) (hl_ip l) = Some i /\
+     nth_error (hf_entries (hosts_add hf l)) i = Some e' /\ In (hl_ip l) (he_ips e') /\
+     forall x, In x (hl_hosts l) -> host_get (hf_hosthash hf) x = None ->
+               host_get (hf_hosthash (hosts_add hf l)) x = Some i).
+Proof.
+  intros (I1 & I2 & I3). unfold hosts_add.
+  set (fresh := filter (fun x => match host_get (hf_hosthash hf) x with Some _ => false | None => true end) (hl_hosts l)).
+  assert (I3' : forall names i k j, (forall y, In y names -> In y (hl_hosts l)) ->
+            host_get (hosthash_add (hf_hosthash hf) names i) k = Some j ->
+            exists l0 y, In l0 (lines ++ [l]) /\ In y (hl_hosts l0) /\ strcaseeq y k = true).
+  { intros names i k j Hsub H. destruct (hosthash_add_cases names i _ k j H) as [H0 | (_ & y & Hy & Hc)].
+    - destruct (I3 k j H0) as (l0 & y & Hl0 & Hy & Hc). exists l0, y. split; [apply in_or_app; left; exact Hl0 | auto].
+    - exists l, y. split; [apply in_or_app; right; left; reflexivity | split; [apply Hsub; exact Hy | exact Hc]]. }
+  unfold hosts_match.
+  destruct (ip_get (hf_iphash hf) (hl_ip l)) as [i|] eqn:Eip.
+  - (* the address is known: the names join its entry *)
+    destruct (I2 _ _ Eip) as (e & Ee & Hin).
+    assert (Hi : (i < length (hf_entries hf))%nat) by (apply nth_error_Some; congruence).
+    cbv beta iota. unfold hf_inv. cbn [hf_entries hf_iphash hf_hosthash].
+    split; [split; [|split]|split; [|split; [|split]]].
+    + intros k j H. rewrite update_entry_length. destruct (hosthash_add_cases fresh i _ k j H) as [H0 | [-> _]]; [exact (I1 k j H0) | exact Hi].
+    + intros ip j H. destruct (I2 ip j H) as (e0 & E0 & Hin0). destruct (Nat.eq_dec j i) as [->|Hne].
+      * rewrite (update_entry_same _ _ _ e Ee). eexists. split; [reflexivity|]. cbn [he_ips]. congruence.
+      * rewrite (update_entry_other _ _ _ _ Hne). eauto.
+    + intros k j H. apply (I3' fresh i k j); [apply fresh_incl | exact H].
+    + intros k j H. apply hosthash_add_stable. exact H.
+    + auto.
+    + intros j e0 E0. destruct (Nat.eq_dec j i) as [->|Hne].
+      * rewrite (update_entry_same _ _ _ e Ee). eexists. split; [reflexivity|]. cbn [he_ips]. rewrite Ee in E0. injection E0 as <-. apply incl_refl.
+      * rewrite (update_entry_other _ _ _ _ Hne). exists e0. split; [exact E0 | apply incl_refl].
+    + exists i. eexists. split; [exact Eip|]. split; [apply (update_entry_same _ _ _ e Ee)|]. cbn [he_ips]. split; [exact Hin|].
+      intros x Hx Ex. apply added_maps_to; [apply fresh_in; assumption | exact Ex].
+  - destruct (first_host_match (hf_hosthash hf) (hl_hosts l)) as [i|] eqn:Eh.
+    + (* a name of the line is known: the address joins that entry *)
+      destruct (first_host_match_some _ _ _ Eh) as (y0 & Hy0 & Ey0).
+      assert (Hi : (i < length (hf_entries hf))%nat) by exact (I1 _ _ Ey0).
+      destruct (nth_error (hf_entries hf) i) as [e|] eqn:Ee; [|apply nth_error_None in Ee; lia].
+      cbv beta iota. unfold hf_inv. cbn [hf_entries hf_iphash hf_hosthash].
+      split; [split; [|split]|split; [|split; [|split]]].
+      * intros k j H. rewrite update_entry_length. destruct (hosthash_add_cases fresh i _ k j H) as [H0 | [-> _]]; [exact (I1 k j H0) | exact Hi].
+      * intros ip j H. destruct (ip_get (hf_iphash hf) ip) as [j0|] eqn:E0.
+        -- rewrite (ip_get_app _ _ _ _ E0) in H. injection H as <-. destruct (I2 ip j0 E0) as (e0 & Ee0 & Hin0).
+           destruct (Nat.eq_dec j0 i) as [->|Hne].
+           ++ rewrite (update_entry_same _ _ _ e Ee). eexists. split; [reflexivity|]. cbn [he_ips]. apply in_or_app. left. congruence.
+           ++ rewrite (update_entry_other _ _ _ _ Hne). eauto.
+        -- rewrite (ip_get_app_none _ _ _ E0) in H. cbn in H. destruct (ipkey_eqb (hl_ip l) ip) eqn:Ek; [|discriminate].
+           injection H as <-. apply ipkey_eqb_eq in Ek. subst ip.
+           rewrite (update_entry_same _ _ _ e Ee). eexists. split; [reflexivity|]. cbn [he_ips]. apply in_or_app. right. left. reflexivity.
+      * intros k j H. apply (I3' fresh i k j); [apply fresh_incl | exact H].
+      * intros k j H. apply hosthash_add_stable. exact H.
+      * intros ip j H. apply ip_get_app. exact H.
+      * intros j e0 E0. destruct (Nat.eq_dec j i) as [->|Hne].
+        -- rewrite (update_entry_same _ _ _ e Ee). eexists. split; [reflexivity|]. cbn [he_ips]. rewrite Ee in E0. injection E0 as <-. apply incl_appl, incl_refl.
+        -- rewrite (update_entry_other _ _ _ _ Hne). exists e0. split; [exact E0 | apply incl_refl].
+      * exists i. eexists. split; [|split; [apply (update_entry_same _ _ _ e Ee)|]].
+        -- rewrite (ip_get_app_none _ _ _ Eip). cbn. rewrite (proj2 (ipkey_eqb_eq _ _) eq_refl). reflexivity.
+        -- cbn [he_ips]. split; [apply in_or_app; right; left; reflexivity|].
+           intros x Hx Ex. apply added_maps_to; [apply fresh_in; assumption | exact Ex].
+    + (* nothing known: a new entry *)
+      cbv beta iota. unfold hf_inv. cbn [hf_entries hf_iphash hf_hosthash].
+      set (i := length (hf_entries hf)).
+      assert (Hnew : nth_error (hf_entries hf ++ [mkHEntry [hl_ip l] (hl_hosts l)]) i = Some (mkHEntry [hl_ip l] (hl_hosts l))).
+      { unfold i. rewrite nth_error_app2 by lia. rewrite Nat.sub_diag. reflexivity. }
+      assert (Hold : forall j e0, nth_error (hf_entries hf) j = Some e0 -> nth_error (hf_entries hf ++ [mkHEntry [hl_ip l] (hl_hosts l)]) j = Some e0).
+      { intros j e0 E0. rewrite nth_error_app1; [exact E0 | apply nth_error_Some; congruence]. }
+      split; [split; [|split]|split; [|split; [|split]]].
+      * intros k j H. rewrite app_length. cbn [length]. destruct (hosthash_add_cases (hl_hosts l) i _ k j H) as [H0 | [-> _]]; [specialize (I1 k j H0); lia | unfold i; lia].
+      * intros ip j H. destruct (ip_get (hf_iphash hf) ip) as [j0|] eqn:E0.
+        -- rewrite (ip_get_app _ _ _ _ E0) in H. injection H as <-. destruct (I2 ip j0 E0) as (e0 & Ee0 & Hin0). exists e0. split; [apply Hold; exact Ee0 | exact Hin0].
+        -- rewrite (ip_get_app_none _ _ _ E0) in H. cbn in H. destruct (ipkey_eqb (hl_ip l) ip) eqn:Ek; [|discriminate].
+           injection H as <-. apply ipkey_eqb_eq in Ek. subst ip. eexists. split; [exact Hnew | left; reflexivity].
+      * intros k j H. apply (I3' (hl_hosts l) i k j); [auto | exact H].
+      * intros k j H. apply hosthash_add_stable. exact H.
+      * intros ip j H. apply ip_get_app. exact H.
+      * intros j e0 E0. exists e0. split; [apply Hold; exact E0 | apply incl_refl].
+      * exists i. eexists. split; [|split; [exact Hnew|]].
+        -- rewrite (ip_get_app_none _ _ _ Eip). cbn. rewrite (proj2 (ipkey_eqb_eq _ _) eq_refl). reflexivity.
+        -- cbn [he_ips]. split; [left; reflexivity|]. intros x Hx Ex. apply added_maps_to; assumption.
+Qed.
+
+Definition hf_le (a b : hfile) : Prop :=
+  (forall k i, host_get (hf_hosthash a) k = Some i -> host_get (hf_hosthash b) k = Some i) /\
+  (forall ip i, ip_get (hf_iphash a) ip = Some i -> ip_get (hf_iphash b) ip = Some i) /\
+  (forall i e, nth_error (hf_entries a) i = Some e -> exists e', nth_error (hf_entries b) i = Some e' /\ incl (he_ips e) (he_ips e')).
+
+Lemma hf_le_refl a : hf_le a a.
+Proof. split; [auto|]. split; [auto|]. intros i e E. exists e. split; [exact E | apply incl_refl]. Qed.
+Lemma hf_le_trans a b c : hf_le a b -> hf_le b c -> hf_le a c.
+Proof.
+  intros (A1 & A2 & A3) (B1 & B2 & B3). split; [auto|]. split; [auto|].
+  intros i e E. destruct (A3 i e E) as (e1 & E1 & H1). destruct (B3 i e1 E1) as (e2 & E2 & H2).
+  exists e2. split; [exact E2 | eapply incl_tran; eassumption].
+Qed.
+
+Lemma hosts_fold_grow ls : forall pre hf, hf_inv pre hf ->
+  hf_inv (pre ++ ls) (fold_left hosts_add ls hf) /\ hf_le hf (fold_left hosts_add ls hf).
+Proof.
+  induction ls as [|l ls IH]; intros pre hf Hinv; cbn [fold_left].
+  - rewrite app_nil_r. split; [exact Hinv | apply hf_le_refl].
+  - destruct (hosts_add_step pre hf l Hinv) as (Hinv1 & S1 & S2 & S3 & _).
+    destruct (IH (pre ++ [l]) (hosts_add hf l) Hinv1) as (Hinv2 & Hle).
+    rewrite <- app_assoc in Hinv2. split; [exact Hinv2|].
+    eapply hf_le_trans; [|exact Hle]. split; [exact S1|]. split; [exact S2 | exact S3].
+Qed.
+
+Lemma hf_inv_empty : hf_inv [] hf_empty.
+Proof. split; [|split]; cbn; intros; discriminate. Qed.
+
+(* completeness 1: the FIRST line that mentions a name contributes its address to the entry the
+   name resolves to (later lines may add more, nothing is ever removed) *)
+Theorem hosts_first_mention pre l post x :
+  In x (hl_hosts l) ->
+  (forall l' y, In l' pre -> In y (hl_hosts l') -> strcaseeq y x = false) ->
+  exists e, hosts_search_host (hosts_build (pre ++ l :: post)) x = Some e /\ In (hl_ip l) (he_ips e).
+Proof.
+  intros Hx Hfirst. unfold hosts_build. rewrite fold_left_app. cbn [fold_left].
+  destruct (hosts_fold_grow pre [] hf_empty hf_inv_empty) as (Hinv1 & _). cbn [app] in Hinv1.
+  set (hf1 := fold_left hosts_add pre hf_empty) in *.
+  assert (Hnone : host_get (hf_hosthash hf1) x = None).
+  { destruct (host_get (hf_hosthash hf1) x) as [i|] eqn:E; [|reflexivity].
+    destruct Hinv1 as (_ & _ & I3). destruct (I3 x i E) as (l' & y & Hl' & Hy & Hc).
+    rewrite (Hfirst l' y Hl' Hy) in Hc. discriminate. }
+  destruct (hosts_add_step pre hf1 l Hinv1) as (Hinv2 & _ & _ & _ & (i & e' & _ & Ee & Hin & Hmap)).
+  specialize (Hmap x Hx Hnone).
+  destruct (hosts_fold_grow post (pre ++ [l]) (hosts_add hf1 l) Hinv2) as (_ & (L1 & _ & L3)).
+  destruct (L3 i e' Ee) as (e'' & Ee'' & Hincl).
+  exists e''. unfold hosts_search_host. rewrite (L1 x i Hmap). split; [exact Ee'' | apply Hincl; exact Hin].
+Qed.
+
+(* completeness 2: no line is dropped - the address of every line is found by the reverse
+   lookup, in an entry that contains it *)
+Theorem hosts_every_line pre l post :
+  exists e, hosts_search_ip (hosts_build (pre ++ l :: post)) (hl_ip l) = Some e /\ In (hl_ip l) (he_ips e).
+Proof.
+  unfold hosts_build. rewrite fold_left_app. cbn [fold_left].
+  destruct (hosts_fold_grow pre [] hf_empty hf_inv_empty) as (Hinv1 & _). cbn [app] in Hinv1.
+  set (hf1 := fold_left hosts_add pre hf_empty) in *.
+  destruct (hosts_add_step pre hf1 l Hinv1) as (Hinv2 & _ & _ & _ & (i & e' & Eip & Ee & Hin & _)).
+  destruct (hosts_fold_grow post (pre ++ [l]) (hosts_add hf1 l) Hinv2) as (_ & (_ & L2 & L3)).
+  destruct (L3 i e' Ee) as (e'' & Ee'' & Hincl).
+  exists e''. unfold hosts_search_ip. rewrite (L2 _ i Eip). split; [exact Ee'' | apply Hincl; exact Hin].
+Qed.
+
+(* hence the forward lookup of a name delivers the address of the first line that mentions it,
+   whenever the family asks for it *)
+Theorem hosts_first_mention_node pre l post x family port :
+  In x (hl_hosts l) ->
+  (forall l' y, In l' pre -> In y (hl_hosts l') -> strcaseeq y x = false) ->
+  (family = LEG_AF_UNSPEC \/ family = fst (hl_ip l)) ->
+  In (mkNode (fst (hl_ip l)) (snd (hl_ip l)) port 0) (spec_hosts_nodes (hosts_build (pre ++ l :: post)) x family port).
+Proof.
+  intros Hx Hfirst Hfam. destruct (hosts_first_mention pre l post x Hx Hfirst) as (e & Ee & Hin).
+  unfold spec_hosts_nodes. rewrite Ee. apply in_map_iff. exists (hl_ip l). split; [reflexivity|].
+  apply filter_In. split; [exact Hin|]. destruct Hfam as [-> | ->]; [reflexivity | rewrite Z.eqb_refl; apply orb_true_r].
+Qed.
